@@ -47,6 +47,27 @@ PROPS["C16"] = dict(
     level_note="SHA-256 SSE4.1/AVX and BLAKE2 AVX/AVX2 paths are OUTSIDE the claim (cannot be compiled under Kani: target-feature flags are ignored).",
 )
 
+PROPS["C04"] = dict(
+    prefixes=["c04_"],
+    level="model_checking",
+    bounds="one process_mut/process call from an ARBITRARY context (16 arbitrary state words, arbitrary cached block, every offset 0..=64) on a buffer of "
+           "symbolic length 0..=130 (thorough: 192); block function instantiated with ROUNDS=2 (one real double round); DRG requests bytes<N> N in {1,7,64,65}, "
+           "u32, u64, fill_bytes<33>, fill_slice len<=70 over arbitrary prior buffer contents",
+    outside="buffers longer than the bound in ONE call (longer inputs are compositions of steps: the step lemma is closed under composition because the "
+            "post-state is again an arbitrary context); ROUNDS in {8,12,20} inside process_mut (the round count only enters through rounds(), decided in C03)",
+    assumptions=["stub: core::arch::x86_64::_mm_add_epi32 -> lane-wise wrapping add (Kani 0.68 inserts a spurious overflow assertion into simd_add)",
+                 "context invariant assumed: offset <= 64 (established by new/seek/update, preserved by the step: asserted)"],
+    trusted=["harness/incrate/chacha_spec.rs + salsa.rs transcriptions of the block functions"],
+    explanation="inductive step of every cipher context against the position-indexed keystream of the specification; partitions, involution, clone and seek "
+                "follow from the step lemma",
+    level_text="For all five cipher contexts: one process_mut step from an arbitrary context state equals data XOR position-indexed keystream (cached tail, then "
+               "freshly generated blocks in counter order), with offset/counter/cached-block bookkeeping asserted, decided by CBMC for all states and all buffer "
+               "lengths up to the bound; process == copy+process_mut, length mismatch panics, seek, clone; DRG outputs equal successive keystream bytes "
+               "independent of prior buffer contents.",
+    level_note="ROUNDS=2 instantiation of the block function inside the step (real code path, one double round); lengths <= 130 per call (192 thorough). "
+               "Any call sequence is a composition of verified steps.",
+)
+
 _PENDING = "not yet built in this round; see DESIGN.md section 4 for the plan"
 NOT_APPLICABLE = {
     "C19": "property is about the program-counter trace of the optimised machine code; no installed engine can encode machine code or LLVM IR "
